@@ -41,6 +41,16 @@ def main(ctx):
                               "overrides": {"RandomInputHandler": {"number_of_root_nodes": n}}, "min_event_handlers": 6 * n},
                      "props": list(PROPS), "seed": ctx.seed * 1000 + 80 + k, "max_events": ctx.pick(600, 6000),
                      "label": name + f"({n} molecules)"})
+    # generated: two occupancy systems on the same cell level over the SAME cell grid (two pair interactions): a crossing
+    # produces two cell-boundary events with identical times, each system must follow the active unit at both
+    rng2 = suite.core.rng_for("C11", ctx.seed, "two-systems")
+    for k in range(ctx.pick(6, 40)):
+        spec = suite.gen_spec(rng2, "soft_cells")
+        spec["params"]["cells"]["second_system"] = True
+        spec["params"]["cells"]["max_occupants2"] = rng2.choice([1, 2, 0])
+        spec["family"] = "soft_cells_two_systems"
+        jobs.append({"spec": spec, "props": list(PROPS), "seed": ctx.seed * 1000 + 600 + k, "max_events": gen_ev,
+                     "label": f"gen-soft_cells_two_systems-{k}"})
     # directed: start lattice, chain length and cell side commensurate -> legs end exactly on cell faces (time ties between
     # the end-of-chain / lifting event and the cell-boundary event)
     for s in range(ctx.pick(4, 16)):
